@@ -277,6 +277,71 @@ func init() {
 			}
 		}
 
+		// asyncError: log.Error(...); state.LogBuildError(...); then either `state.Stop()` or `if !state.KeepGoing { state.Stop() }`
+		ae := findFunc(st, "BuildState", "asyncError")
+		asyncStopsAlways := ""
+		isStopCall := func(x ast.Stmt) bool {
+			es, ok := x.(*ast.ExprStmt)
+			if !ok {
+				return false
+			}
+			c, ok := isCallTo(es.X, "Stop")
+			return ok && len(c.Args) == 0
+		}
+		if len(ae.Body.List) != 3 {
+			failShape("asyncError: body is not three statements")
+		}
+		if es, ok := ae.Body.List[1].(*ast.ExprStmt); !ok {
+			failShape("asyncError: second statement is not a call")
+		} else if _, ok := isCallTo(es.X, "LogBuildError"); !ok {
+			failShape("asyncError: second statement is not LogBuildError")
+		}
+		switch x := ae.Body.List[2].(type) {
+		case *ast.ExprStmt:
+			if !isStopCall(x) {
+				failShape("asyncError: last statement is not state.Stop()")
+			}
+			asyncStopsAlways = "true"
+		case *ast.IfStmt:
+			ue, ok := x.Cond.(*ast.UnaryExpr)
+			if !ok || ue.Op != token.NOT || x.Else != nil || x.Init != nil || len(x.Body.List) != 1 || !isStopCall(x.Body.List[0]) {
+				failShape("asyncError: conditional Stop of an unknown shape")
+			}
+			if se, ok := ue.X.(*ast.SelectorExpr); !ok || se.Sel.Name != "KeepGoing" {
+				failShape("asyncError: conditional Stop of an unknown shape")
+			}
+			asyncStopsAlways = "false"
+		default:
+			failShape("asyncError: last statement is neither Stop() nor a conditional Stop()")
+		}
+		// queueTargetAsync: the guard of the Active -> Pending swap: `building && target.SyncUpdateState(A, B)` or the bare swap
+		pendingNeedsBuilding := ""
+		ast.Inspect(qa.Body, func(x ast.Node) bool {
+			is, ok := x.(*ast.IfStmt)
+			if !ok || len(casPairs(is.Cond, "queueTargetAsync")) != 1 {
+				return true
+			}
+			if pendingNeedsBuilding != "" {
+				failShape("queueTargetAsync: more than one guarded swap")
+			}
+			switch c := is.Cond.(type) {
+			case *ast.BinaryExpr:
+				id, ok := c.X.(*ast.Ident)
+				if _, isCas := isCallTo(c.Y, "SyncUpdateState"); c.Op != token.LAND || !ok || id.Name != "building" || !isCas {
+					failShape("queueTargetAsync: the guard of the Active -> Pending swap has an unknown shape")
+				}
+				pendingNeedsBuilding = "true"
+			case *ast.CallExpr:
+				pendingNeedsBuilding = "false"
+			default:
+				failShape("queueTargetAsync: the guard of the Active -> Pending swap has an unknown shape")
+			}
+			return true
+		})
+		if pendingNeedsBuilding == "" {
+			failShape("queueTargetAsync: guarded swap not found")
+		}
+
 		var b strings.Builder
 		b.WriteString("From Coq Require Import List NArith. Import ListNotations.\n")
 		b.WriteString("(* src/core/build_target.go: the BuildTargetState iota block, in declaration order *)\n")
@@ -299,6 +364,10 @@ func init() {
 		b.WriteString("Definition cas_pending : tstate * tstate := " + casPending[0] + ".\n")
 		b.WriteString("(* build.Build: target.SetState(S) on entry; target.SetState(F) when buildTarget returned an error *)\n")
 		b.WriteString("Definition build_start_set := " + startSet + ".\nDefinition build_fail_set := " + failSet + ".\n")
+		b.WriteString("(* queueTargetAsync: the Active -> Pending swap is guarded by `building &&` (false: a non-building pass performs it too) *)\n")
+		b.WriteString("Definition pending_cas_needs_building : bool := " + pendingNeedsBuilding + ".\n")
+		b.WriteString("(* asyncError: state.Stop() unconditionally (false: only `if !state.KeepGoing`) *)\n")
+		b.WriteString("Definition asyncerror_stops_always : bool := " + asyncStopsAlways + ".\n")
 		b.WriteString("(* logResult on a failure status, flattened in source order: LRStoreSpecific = buildFailed/testFailed.Store(true) (the switch),\n   LRStoreFailed = failed.Store(true), LRSend = internalResults <- result *)\n")
 		b.WriteString("Inductive lr_stmt := LRTime | LRStoreSpecific | LRStoreFailed | LRSend.\n")
 		b.WriteString("Definition logresult_prog : list lr_stmt := [" + strings.Join(lrProg, "; ") + "].\n")
